@@ -5,7 +5,7 @@
 import MelModel.Chain
 import MelModel.Lemmas.StakeL
 namespace Mel
-open Mel.Gen
+open Mel.Gen Mel.StakeLL
 
 /-- a stake transaction registers the stake document `d` in state `s` -/
 def Registers (s : State) (tx : Tx) (d : StakeDoc) : Prop :=
